@@ -294,3 +294,59 @@ func TestC01Held(t *testing.T) {
 	runSimCheck(t, "C01", "a held file superseded by a new version (E-HIST)", files, alphabet, c01Check, depth,
 		fmt.Sprintf("all histories up to length %d over: file p (1 part), file b version 1 (1 part, predecessor p) and version 2 (same size, 2 parts, predecessor p); every part once, one part damaged in transit, one poll (for either version), orderly restart, clock +11 s / +31 min", depth))
 }
+
+// c01AfterCrash: the integrity half of the crash oracle. Whatever arrived in the final directory
+// at any step of the history (before the crash, during recovery, during the resumption) carries a
+// proper target name, the content of an announced version of that name, and - at the end - the
+// receive log holds a record of that name with that hash.
+func c01AfterCrash(s *sim) (viol, class string) {
+	last := s.steps[len(s.steps)-1]
+	for i, st := range s.steps {
+		for _, arr := range st.Arrived {
+			sp := strings.LastIndex(arr, " ")
+			target, md5 := arr[:sp], arr[sp+1:]
+			if strings.HasSuffix(target, ".lck") {
+				continue // the transient name of fileutil.Move (C06 judges leftovers of an interrupted move)
+			}
+			okHash := false
+			for _, k := range s.order {
+				f := s.files[k]
+				if f.target() == target && f.hash() == md5 {
+					okHash = true
+				}
+			}
+			if !okHash {
+				return fmt.Sprintf("step %d: %q appeared in the final directory with content md5 %s, which is no announced version of that name\n%s", i, target, md5, s.trace()), ""
+			}
+			logged := false
+			for _, r := range last.LogAfter {
+				f := strings.Split(r, "|")
+				tgt := f[0]
+				if f[1] != "" {
+					tgt = f[1]
+				}
+				if tgt == target && f[2] == md5 {
+					logged = true
+				}
+			}
+			if !logged {
+				return fmt.Sprintf("step %d: %q (md5 %s) was delivered to the final directory, but after the crash, recovery and resumption the receive log has no record of that name with that hash: %v\n%s", i, target, md5, last.LogAfter, s.trace()), ""
+			}
+		}
+	}
+	return "", ""
+}
+
+// TestC01Crash: delivered content vs. receive log across receiver crashes at every file-system
+// mutation (the enumeration of TestC06, judged by the integrity oracle).
+func TestC01Crash(t *testing.T) {
+	crashOracle = c01AfterCrash
+	defer func() { crashOracle = c06AfterCrash }()
+	depth := 5
+	if vh.Thorough() {
+		depth = 7
+	}
+	files := c06Files()
+	runCrashPoints(t, "C01", "delivered content and receive log across receiver crashes (E-HIST)", files, c06Alphabet(files, vh.Thorough()), depth, false,
+		fmt.Sprintf("crash-free histories up to length %d over: file a (renamed to x/a, 2 parts), file b (1 part, predecessor a); parts up to twice in any order, one corrupted part, one poll, clock +11 s, CleanNow, orderly restart; the receiver dies before each file-system mutation of every transition and at rest after it, and (quick: histories up to length 3) again before each mutation of the recovery that follows; then real Recover() and an ideal resumption; every file that arrived in the final directory at any step must be an announced version and must have its record (name, hash) in the receive log at the end", depth))
+}
